@@ -219,3 +219,47 @@ func VerifC01_SinkFlushesEverything() { verifOrderScenario() }
 //verif:clock virtual
 //verif:reach done two-keys
 func VerifC05_PerKeyOrder() { verifOrderScenario() }
+
+// VerifC06_ConcurrentConnections: two connections, each with its own sink,
+// deliver records of different key tuples at the same time (the scheduler
+// switches at every lock / channel operation and at every call into the agent's packages, one preemption): every pipeline
+// is created under the tuple of the record that caused it and receives only
+// records of that tuple - no per-connection state is shared between sinks.
+//
+//verif:native off
+//verif:preempt 1
+//verif:preemptcalls github.com/relex/slog-agent/
+//verif:delays 1
+//verif:thorough delays 2
+//verif:reach done
+//verif:paths 200000
+func VerifC06_ConcurrentConnections() {
+	st := &verifStarter{}
+	o := NewOrchestrator(logger.Root(), verifSchema, []string{"app", "level"}, "t.$app.$level", fakes.NewMetrics(), st.start, nil)
+	done := make(chan struct{}, 2)
+	conn := func(num base.ClientNumber, app, level string, second bool) {
+		sink := o.NewSink("client", num)
+		sink.Accept([]*base.LogRecord{verifSchema.NewTestRecord1(base.LogFields{app, level, "m"})})
+		if second {
+			sink.Accept([]*base.LogRecord{verifSchema.NewTestRecord1(base.LogFields{level, app, "m"})})
+		}
+		sink.Close()
+		done <- struct{}{}
+	}
+	go conn(1, "a", "x", sym.Tier() > 0)
+	go conn(2, "b", "y", false)
+	<-done
+	<-done
+	for _, p := range st.pipes {
+		sym.Assert(p.tag == "t."+strings.ReplaceAll(p.id, ",", "."), "a pipeline's tag and queue id are built from the same tuple")
+		n := len(p.input)
+		sym.Assert(n >= 1, "a pipeline is created only for a record that goes to it")
+		for i := 0; i < n; i++ {
+			for _, r := range <-p.input {
+				sym.Assert(r.Fields[0]+","+r.Fields[1] == p.id, "a record is routed to the pipeline of exactly its own key values")
+			}
+		}
+	}
+	sym.Assert(len(st.pipes) == 2+sym.Tier(), "one pipeline per distinct tuple")
+	sym.Reach("done")
+}
